@@ -706,7 +706,12 @@ func (e *Env) index(x *EIndex) *SVal {
 		}
 		fr := &Frame{g: g, curState: e.cur}
 		dom, val := fr.mapRead(e.cur, v, mt, i)
-		return g.iteVal(dom, val, g.zero(mt.Elem()))
+		r := g.iteVal(dom, val, g.zero(mt.Elem()))
+		// heap invariant: references stored in a map existed when they were stored
+		if g.inQuant == 0 && hasRefs(mt.Elem()) {
+			g.addAxiom(g.refFacts(e.cur, r))
+		}
+		return r
 	case KString:
 		if i.T == nil {
 			i = g.constVal(tInt, i.Const)
@@ -1011,34 +1016,47 @@ func (e *Env) call(x *ECall) *SVal {
 			v := e.eval(x.Args[0])
 			t := e.typeArg(x.Args[1])
 			return mkBool(sEq(v.Sub[0].Term, bvLit(big.NewInt(int64(g.W.typeTag(t))), 32)))
-		case "atomicval": // atomicval(x): current value of a sync/atomic typed variable x
+		case "atomicval": // atomicval(x): current value of a sync/atomic typed variable x (its field v)
 			p := e.evalLoc(x.Args[0])
 			pt := p.T.Underlying().(*types.Pointer).Elem()
-			name := ""
-			if n, ok := types.Unalias(pt).(*types.Named); ok {
-				name = n.Obj().Name()
+			st := structOf(pt)
+			if st == nil {
+				e.fail("atomicval: %s is not a sync/atomic type", pt)
 			}
-			var vt types.Type
-			switch name {
-			case "Uint64":
-				vt = tUint64
-			case "Int64":
-				vt = tInt64
-			case "Uint32":
-				vt = tUint32
-			case "Int32":
-				vt = types.Typ[types.Int32]
-			case "Uintptr":
-				vt = tUPtr
-			case "Bool":
-				vt = tBool
-			default:
-				e.fail("atomicval: %s is not a supported sync/atomic type", pt)
+			for i := 0; i < st.NumFields(); i++ {
+				if st.Field(i).Name() == "v" {
+					fa := g.fieldAddr(p, pt, i)
+					r := g.load(e.cur, fa, st.Field(i).Type())
+					if n, ok := types.Unalias(pt).(*types.Named); ok && n.Obj().Name() == "Bool" {
+						return mkBool(sNot(sEq(r.Term, bvLit(big.NewInt(0), 32))))
+					}
+					return r
+				}
 			}
-			h := g.heapGet(e.cur, "A|"+name, arrSort(SBV64, g.W.scalarSort(vt)))
-			return scalar(vt, kindOf(vt), sSel(h, p.Term))
+			e.fail("atomicval: %s has no field v", pt)
 		case "addr": // addr(x): the address of location x
 			return e.evalLoc(x.Args[0])
+		case "unbox": // unbox(x): the value held by interface x when its dynamic type is statically known
+			v := e.eval(x.Args[0])
+			if v.K != KIface {
+				e.fail("unbox: not an interface value")
+			}
+			tagLit := v.Sub[0].Term
+			var tag int64 = -1
+			if strings.HasPrefix(tagLit, "#x") {
+				n := new(big.Int)
+				n.SetString(tagLit[2:], 16)
+				tag = n.Int64()
+			}
+			if tag <= 0 || int(tag) > len(g.W.tagTypes) {
+				e.fail("unbox: the dynamic type of %s is not statically known here", x.Args[0].exprString())
+			}
+			t := g.W.tagTypes[tag-1]
+			fr := &Frame{g: g, curState: e.cur, curReach: "false"}
+			return fr.unbox(v, t)
+		case "sameobj": // sameobj(p, q): p and q point into the same allocated object
+			a, b := e.eval(x.Args[0]), e.eval(x.Args[1])
+			return mkBool(sEq(objOf(a.Term), objOf(b.Term)))
 		case "samearray":
 			a, b := e.eval(x.Args[0]), e.eval(x.Args[1])
 			return mkBool(sEq(a.Sub[0].Term, b.Sub[0].Term))
@@ -1459,6 +1477,19 @@ func (e *Env) evalMod(x Expr) []*modItem {
 	case *EIdent:
 		if x.Name == "everything" {
 			return []*modItem{{kind: "star", text: txt}}
+		}
+	case *ECall:
+		if id, ok := x.Fun.(*EIdent); ok && id.Name == "atomicval" {
+			p := e.evalLoc(x.Args[0])
+			pt := p.T.Underlying().(*types.Pointer).Elem()
+			if st := structOf(pt); st != nil {
+				for i := 0; i < st.NumFields(); i++ {
+					if st.Field(i).Name() == "v" {
+						return g.locItems(g.fieldAddr(p, pt, i), st.Field(i).Type(), txt)
+					}
+				}
+			}
+			e.fail("atomicval: unsupported type %s", pt)
 		}
 	case *EStar:
 		v := e.tryEval(x.X)
